@@ -19,7 +19,12 @@ const PREFIXES: [&str; 18] = [
     // a modifier directly behind a proper prefix of itself
     "alalpha", "alphalpha", "bbeta", "betbeta", "prpre", "ppre", "rrc", "ppl", "nnb", "nnb1",
 ];
-const JUNK: [&str; 30] = [
+const JUNK: [&str; 40] = [
+    // characters whose code point, truncated to its low byte (`c as u8`), is an
+    // ASCII digit, letter or separator: U+0131 -> '1', U+0139 -> '9', U+012E -> '.',
+    // U+015F -> '_', U+016E -> 'n', U+0162 -> 'b', U+0161 -> 'a', U+0170 -> 'p',
+    // U+0172 -> 'r', U+0130 -> '0'
+    "\u{0131}", "\u{0139}", "\u{012e}", "\u{015f}", "\u{016e}", "\u{0162}", "\u{0161}", "\u{0170}", "\u{0172}", "\u{0130}\u{0131}",
     "+", "~", ",", "!", "=", "*", "[", " ", "é", "€", "😀", "/", ":", "@",
     // characters that are not ASCII letters or digits but become one under
     // Unicode case folding / numeric classification (KELVIN SIGN -> k,
